@@ -332,6 +332,22 @@ impl ProtoCtx {
                     },
                 }
             }
+            // prove and verify in one step (the proof is randomised, the verdict and the published values are not)
+            ("prove_verify", 3) => {
+                let (req, sig) = (parse_bytes(w[1])?, parse_bytes(w[2])?);
+                let mut c = Cursor::new(Vec::new());
+                match self.rln().generate_rln_proof(Cursor::new(req), &mut c) {
+                    Err(_) => "err".into(),
+                    Ok(()) => {
+                        let msg = c.into_inner();
+                        let mut full = msg.clone();
+                        full.extend_from_slice(&normalize_usize(sig.len()));
+                        full.extend_from_slice(&sig);
+                        let v = verdict(self.rln().verify_rln_proof(Cursor::new(full)));
+                        format!("ok {} {}", show_bytes(&msg[128..]), v)
+                    }
+                }
+            }
             ("witness_req", 2) => match self.rln().get_serialized_rln_witness(Cursor::new(parse_bytes(w[1])?)) { Ok(b) => format!("ok {}", show_bytes(&b)), Err(_) => "err".into() },
             // verification entry points (trailing oracle fields are for the model side only)
             ("verify", _) if w.len() >= 2 => verdict(self.rln().verify(Cursor::new(parse_bytes(w[1])?))),
